@@ -5,7 +5,8 @@ negative one, an already formatted string, a missing value ...).  The fragment i
 are folded with the constant folder on one representative per class; statements supported: assignments (names, tuple
 targets, augmented), if/elif/else, try/except (an exception raised while folding selects the handler that names it),
 `name.append(x)` / `name.extend(x)` on local lists, for-loops over folded iterables, return/continue/break, `raise` of a builtin
-exception type, `with` over a rule-supplied context stub, calls of rule-supplied callables as statements.  Anything
+exception type, `with` over a rule-supplied context stub, calls of rule-supplied callables as statements, nested `def` (a closure
+evaluated the same way), `match` over literal / capture / fixed-length sequence patterns.  Anything
 else stops the evaluation with Unknown - the rule then reports 'not evaluable', never a verdict.  No code of the
 repository is imported or executed: only literals, operators and a fixed table of builtins are interpreted.
 """
@@ -131,10 +132,15 @@ class BlockEval:
     # ---- expressions ---------------------------------------------------------------------------
     def fold(self, e: ast.AST) -> Any:
         e2 = ast.fix_missing_locations(_Rewrite().visit(copy.deepcopy(e)))
+        f = Folder(self.repo, self.module, self.env, world=self.world)
         try:
-            return Folder(self.repo, self.module, self.env, world=self.world).fold(e2)
+            return f.fold(e2)
         except NotConst as ex:
             raise Unknown(f"`{ast.unparse(e)[:60]}`: {ex}")
+        finally:
+            for k in getattr(f, "_walrus", ()):  # `if (m := table.get(k)) is not None:` binds m for the statements that follow
+                if k in f.local:
+                    self.env[k] = f.local[k]
 
     # ---- statements ----------------------------------------------------------------------------
     def run(self, block: Sequence[ast.stmt]) -> Tuple[str, Any]:
@@ -247,6 +253,26 @@ class BlockEval:
                 if item.optional_vars is not None:
                     self._assign(item.optional_vars, v)
             self._block(st.body)
+        elif isinstance(st, ast.FunctionDef):
+            # a nested helper: a callable on folded values whose body is evaluated in the enclosing scope as it is at call time
+            a = st.args
+            if st.decorator_list or a.vararg or a.kwarg or a.kwonlyargs or a.posonlyargs or any(isinstance(n, (ast.Nonlocal, ast.Global, ast.Yield, ast.YieldFrom)) for n in ast.walk(st)):
+                raise Unknown(f"nested function `{st.name}`")
+            self.env[st.name] = self._closure(st)
+        elif isinstance(st, ast.Match):
+            subject = self.fold(st.subject)
+            for case in st.cases:
+                binds: Dict[str, Any] = {}
+                if self._match(case.pattern, subject, binds):
+                    saved = {k: self.env[k] for k in binds if k in self.env}
+                    self.env.update(binds)
+                    if case.guard is not None and not self.fold(case.guard):
+                        for k in binds:
+                            self.env.pop(k, None)
+                        self.env.update(saved)
+                        continue
+                    self._block(case.body)
+                    break
         elif isinstance(st, ast.Raise):
             # `raise ValueError(...)` of a builtin exception type is the exception itself (selects a handler like one raised by an
             # interpreted builtin); a bare `raise` in a handler re-raises the exception being handled
@@ -275,6 +301,46 @@ class BlockEval:
             pass
         else:
             raise Unknown(f"statement kind {type(st).__name__}")
+
+    def _closure(self, fn: ast.FunctionDef):
+        params = [x.arg for x in fn.args.args]
+        defaults = dict(zip(params[len(params) - len(fn.args.defaults) :], fn.args.defaults))
+        body = [b for b in fn.body if not (isinstance(b, ast.Expr) and isinstance(b.value, ast.Constant))]
+
+        def call(*vals):
+            if len(vals) > len(params):
+                raise TypeError(f"{fn.name}() takes {len(params)} positional arguments but {len(vals)} were given")
+            env = dict(self.env)
+            env.update(zip(params, vals))
+            for p_ in params[len(vals) :]:
+                if p_ not in defaults:
+                    raise TypeError(f"{fn.name}() missing required argument: '{p_}'")
+                env[p_] = self.fold(defaults[p_])
+            sub = BlockEval(self.repo, self.module, env, max_steps=self.max_steps, world=self.world)
+            kind, val = sub.run(body)
+            self.steps += sub.steps
+            return val if kind == "return" else None
+
+        call.__name__ = fn.name
+        return call
+
+    def _match(self, pat: ast.pattern, v: Any, binds: Dict[str, Any]) -> bool:
+        """Literal / singleton / or / capture / wildcard / fixed-length sequence patterns; anything else is not evaluable."""
+        if isinstance(pat, ast.MatchValue):
+            return v == self.fold(pat.value)
+        if isinstance(pat, ast.MatchSingleton):
+            return v is pat.value
+        if isinstance(pat, ast.MatchOr):
+            return any(self._match(p_, v, binds) for p_ in pat.patterns)
+        if isinstance(pat, ast.MatchAs):
+            if pat.pattern is not None and not self._match(pat.pattern, v, binds):
+                return False
+            if pat.name is not None:
+                binds[pat.name] = v
+            return True
+        if isinstance(pat, ast.MatchSequence) and not any(isinstance(p_, ast.MatchStar) for p_ in pat.patterns):
+            return isinstance(v, (list, tuple)) and len(v) == len(pat.patterns) and all(self._match(p_, x, binds) for p_, x in zip(pat.patterns, v))
+        raise Unknown(f"match pattern `{ast.unparse(pat)[:40]}`")
 
     def _aug(self, cur: Any, st: ast.AugAssign) -> Any:
         rhs = self.fold(st.value)
